@@ -679,6 +679,13 @@ Section QuotientExt.
   Qed.
 End QuotientExt.
 
+Lemma somes_In q l : In q (somes l) <-> In (Some q) l.
+Proof.
+  induction l as [|[q'|] l IH]; simpl; [tauto| |].
+  - rewrite IH. split; [intros [H|H]; [left; congruence|right; exact H]|intros [H|H]; [left; congruence|right; exact H]].
+  - rewrite IH. split; [intro H; right; exact H|intros [H|H]; [discriminate|exact H]].
+Qed.
+
 Section Concrete.
   Variable m : dfa.
   Hypothesis Hv : valid_dfa m = true.
@@ -807,13 +814,6 @@ Section Concrete.
     - intros q r Hq Hr. apply H; apply Qh_In; assumption.
     - intros Hneed q Hq. apply H; apply Qh_In; assumption.
   Qed.
-  Lemma somes_In q l : In q (somes l) <-> In (Some q) l.
-  Proof.
-    induction l as [|[q'|] l IH]; simpl; [tauto| |].
-    - rewrite IH. split; [intros [H|H]; [left; congruence|right; exact H]|intros [H|H]; [left; congruence|right; exact H]].
-    - rewrite IH. split; [intro H; right; exact H|intros [H|H]; [discriminate|exact H]].
-  Qed.
-
   (* the observable partition (retain_names=True): every block is non-empty and is exactly the set of
      kept states that accept the same words as any of its members; every kept state that is not
      equivalent to the trap lies in a block *)
